@@ -2556,7 +2556,8 @@ impl<'ast> Visitor<'ast> for ReturnsValueVisitor {
 
     fn visit_statement(&mut self, node: &'ast Statement) -> ControlFlow<Self::BreakTy> {
         match node {
-            Statement::Empty | Statement::Var(_) => {}
+            // `break` and `continue` complete with an empty value.
+            Statement::Empty | Statement::Var(_) | Statement::Break(_) | Statement::Continue(_) => {}
             Statement::Block(node) => self.visit(node)?,
             Statement::Labelled(node) => self.visit(node)?,
             _ => return ControlFlow::Break(()),
